@@ -38,6 +38,10 @@ impl KnownFindings {
     pub fn load() -> Self {
         let p = verif_root().join("known_findings.json");
         let mut entries = Vec::new();
+        // replays re-run an enumeration and want to see every signature
+        if std::env::var_os("VERIF_IGNORE_KNOWN").is_some() {
+            return Self { entries };
+        }
         if let Ok(s) = fs::read_to_string(&p) {
             let v: Value = serde_json::from_str(&s).expect("known_findings.json must parse");
             for e in v["findings"].as_array().cloned().unwrap_or_default() {
@@ -251,10 +255,12 @@ impl Run {
         });
         let edir = root.join("evidence");
         let _ = fs::create_dir_all(&edir);
+        if std::env::var_os("VERIF_NO_EVIDENCE").is_none() {
         write_atomic(
             &edir.join(format!("{}.json", self.property)),
             &serde_json::to_string_pretty(&ev).unwrap(),
         );
+        }
         println!(
             "{} {} [{}]: states={} transitions={} violations={} known={} wall={:.1}s exit={}",
             self.property,
